@@ -55,6 +55,16 @@ type doc struct {
 	m     model
 	calls int64
 	fonts map[string]*canvas.Font // loaded fresh per document: the writer mutates font objects
+	grad  *canvas.LinearGradient  // one gradient object used by several draws of the document
+}
+
+func (d *doc) sharedGradient() *canvas.LinearGradient {
+	if d.grad == nil {
+		d.grad = canvas.NewLinearGradient(canvas.Point{X: 0, Y: 0}, canvas.Point{X: 10, Y: 4})
+		d.grad.Add(0, canvas.Green)
+		d.grad.Add(1, canvas.Blue)
+	}
+	return d.grad
 }
 
 func (d *doc) page() *pageModel { return &d.m.pages[len(d.m.pages)-1] }
@@ -212,6 +222,12 @@ func alphabet() []action {
 			st.Fill = canvas.Paint{Gradient: g}
 			return tri(), st
 		}),
+		action{"Path(fill=the document's shared gradient object)", func(d *doc) {
+			st := canvas.DefaultStyle
+			st.Fill = canvas.Paint{Gradient: d.sharedGradient()}
+			d.p.RenderPath(tri(), st, canvas.Identity.Translate(3, 4))
+			d.page().paths++
+		}},
 		textAction("Text(DejaVuSerif,\"Hi\")", "DejaVuSerif", "Hi", func(f *canvas.Font) *canvas.FontFace { return f.Face(12, canvas.Black) }),
 		textAction("Text(DejaVuSerif,ascii95,red@0.5,underline)", "DejaVuSerif", ascii95, func(f *canvas.Font) *canvas.FontFace {
 			return f.Face(10, color.RGBA{128, 0, 0, 128}, canvas.FontUnderline)
@@ -1046,6 +1062,7 @@ func longDocs(full []action) fw.Family {
 		{"Path(fill=blue@0.5,stroke=black)"},
 		{"Text(DejaVuSerif,\"Hi\")", "AddLink"},
 		{"Image(alpha)", "Path(fill=linear-gradient)"},
+		{"Path(fill=the document's shared gradient object)"},
 	}
 	var counts []int
 	for n := 1; n <= 70; n++ {
